@@ -25,8 +25,7 @@ LEVELS = {
                 "event; plus completeness of the honest membership prover.  The tree/verifier/prover model is tied to the code bit for bit "
                 "(Gallina BLAKE3) on real Azks trees with honest and adversarial proofs; three genuine defects found this way were repaired "
                 "(fix: commits) before the theorems could be proved.",
-        "note": TB + "Hash assumptions appear only as the disjuncts Collision H / ZeroPre H and the 32-byte output length. Completeness of the "
-                "non-membership prover is decided by correspondence + oracle (every related non-member label on every generated tree), not yet by a theorem.",
+        "note": TB + "Hash assumptions appear only as the disjuncts Collision H / ZeroPre H and the 32-byte output length. Completeness of BOTH provers is a theorem (C05_gen_membership_verifies; C05_gen_nonmembership_verifies on canonical trees with 256-bit leaves, which the directory's tree always is by C01) and is also checked on every related non-member label of every generated tree.",
     },
     "C15": {
         "text": "Machine-checked proof over the storage-manager model (all states reachable or not that satisfy the proved invariant, all keys, "
